@@ -336,7 +336,12 @@ pub fn build(
                 let mut function = function.clone();
                 let original_name = function.name.clone();
                 if associated_functions_used_names.contains(&original_name) {
-                    function.name = format!("{}_{}", base_name, original_name);
+                    // the name is embedded in a longer identifier: drop a raw-identifier prefix
+                    function.name = format!(
+                        "{}_{}",
+                        base_name,
+                        original_name.strip_prefix("r#").unwrap_or(&original_name)
+                    );
                 }
                 function.body = FunctionBody::field(base_name.clone(), original_name);
                 associated_functions_used_names.insert(function.name.clone());
